@@ -61,11 +61,20 @@ func cfgC03(tier string) e1Cfg {
 		Oracles: oracleSet("index", "replica-index"), DensePct: 12, TailPct: 30}
 }
 
+func countPlan(tier string) Plan {
+	n := 4
+	if tier == "thorough" {
+		n = 32
+	}
+	return Plan{Cases: n, Workers: 4, MaxProcs: 4, Timeout: 40 * time.Minute, HangIsViol: true}
+}
+
 func cfgC04(tier string) e1Cfg {
 	t := baseTxn()
 	t.PDelete, t.InsertAllPct = 22, 30
 	return e1Cfg{Prop: "C04", Kinds: append(append([]Kind{}, numericKinds...), KBool, KString, KEnum, KRecord), KeyedPct: 10, LayoutPct: 55,
-		Steps: steps(tier, 130, 420), Pool: "agg", NIdx: 4, PIdxChg: 3, PFilter: 55, Txn: t, DumpEvery: 1, Oracles: oracleSet("filter")}
+		LateKinds: append(append([]Kind{}, numericKinds...), KBool, KString, KEnum), PNewCol: 2,
+		Steps: steps(tier, 130, 420), Pool: "agg", NIdx: 4, PIdxChg: 3, PFilter: 55, Txn: t, DumpEvery: 1, Oracles: oracleSet("filter", "index")}
 }
 
 func cfgC07(tier string) e1Cfg {
@@ -156,6 +165,23 @@ func init() {
 				return Plan{Cases: n, Workers: 1, MaxProcs: 16, Timeout: 40 * time.Minute, HangIsViol: true}
 			}, func(w *W, idx int) {
 				withWatchdog(w, idx, fmt.Sprintf("E3:torn:round%d", idx+300), 5*time.Minute, func() { tornRound(w, idx+300) })
+			})
+		}
+		if p.id == "C02" {
+			// ... nor may a snapshot taken beside the commit contain half of it
+			mp.add(func(tier string) Plan {
+				n := 2
+				if tier == "thorough" {
+					n = 16
+				}
+				return Plan{Cases: n, Workers: 2, MaxProcs: 8, Timeout: 40 * time.Minute, HangIsViol: true}
+			}, func(w *W, idx int) {
+				withWatchdog(w, idx, fmt.Sprintf("E3:torn-snapshot:round%d", idx), 5*time.Minute, func() { tornSnapshotRound(w, idx) })
+			})
+		}
+		if p.id == "C11" {
+			mp.add(countPlan, func(w *W, idx int) {
+				withWatchdog(w, idx, fmt.Sprintf("E3:count:round%d", idx), 5*time.Minute, func() { countRound(w, idx) })
 			})
 		}
 		if p.id == "C19" {
